@@ -484,7 +484,7 @@ func timeNow(w *Worker, fr *frame, args []Value) (Value, bool) {
 	w.stub("time.Now (fresh symbolic instant, non-decreasing)")
 	w.clockN++
 	v := w.P.Var(fmt.Sprintf("now#%d", w.clockN), 64)
-	w.draws = append(w.draws, Draw{Name: "time.Now", Kind: "int", W: 64, vars: []string{v.Name}})
+	w.draws = append(w.draws, Draw{Name: "time.Now", Kind: "env", W: 64, vars: []string{v.Name}})
 	lo := w.P.Const(64, 1<<40)
 	hi := w.P.Const(64, 1<<41)
 	c := w.P.BAnd(w.P.Cmp(OpSle, lo, v), w.P.Cmp(OpSlt, v, hi))
